@@ -243,8 +243,21 @@ def _implementers(elab, tyname):
     return []
 
 
-def gen_items(rng, elab, tyname, depth, pfill=0.75):
-    """a (mostly) conforming item list for the container type"""
+# datatypes that convert the EMPTY string (a key alone on its line, or a value that substitutes to nothing, gives '')
+EMPTY_OK = ("string", "null", "string-list", "zcvdt.marker")
+
+
+def _value(rng, dt, pempty):
+    """a value for a key of datatype dt; with probability pempty the empty value where the datatype converts it (a key that
+    is PRESENT with the value '' - not an absent key: it holds the conversion of '', never the schema default)"""
+    if pempty and dt in EMPTY_OK and rng.random() < pempty:
+        return ""
+    return _pick_value(rng, dt, 0.03)
+
+
+def gen_items(rng, elab, tyname, depth, pfill=0.75, pempty=0.0):
+    """a (mostly) conforming item list for the container type (pempty: share of empty values among the keys whose
+    datatype converts the empty string; 0 = never, and then no random draw is spent on it)"""
     children, kt = _children_of(elab, tyname)
     items = []
     usednames = set()
@@ -262,10 +275,10 @@ def gen_items(rng, elab, tyname, depth, pfill=0.75):
                 rng.shuffle(ks)
                 for k in ks[: rng.randint(1, 2)]:
                     for _ in range(n):
-                        items.append(kv(_maybe_case(rng, kt, k), _pick_value(rng, dt, 0.03)))
+                        items.append(kv(_maybe_case(rng, kt, k), _value(rng, dt, pempty)))
             else:
                 for _ in range(n):
-                    items.append(kv(_maybe_case(rng, kt, name), _pick_value(rng, dt, 0.03)))
+                    items.append(kv(_maybe_case(rng, kt, name), _value(rng, dt, pempty)))
         else:
             _, name, attr, multi, mn, ty, h = info
             fill = rng.random() < pfill or mn
@@ -290,7 +303,7 @@ def gen_items(rng, elab, tyname, depth, pfill=0.75):
                     continue
                 if nm:
                     usednames.add(nm.lower())
-                sub = gen_items(rng, elab, t, depth - 1, pfill)
+                sub = gen_items(rng, elab, t, depth - 1, pfill, pempty)
                 items.append(sect(_case_variant(rng, t) if rng.random() < 0.3 else t,
                                   (_case_variant(rng, nm) if rng.random() < 0.3 else nm) if nm else None,
                                   sub, empty=(not sub and rng.random() < 0.6)))
@@ -298,6 +311,49 @@ def gen_items(rng, elab, tyname, depth, pfill=0.75):
     if rng.random() < 0.5:
         rng.shuffle(items)
     return items
+
+
+EMPTY_NAME = "zcvnil"
+
+
+def empty_by_reference(rng, items, p=0.5):
+    """rewrites (in place) a share of the empty values as references to a name defined as nothing ('$zcvnil', '${ZcvNil}':
+    the value the key gets is '' all the same) and puts the definition first; returns the number of values rewritten"""
+    n = 0
+    for cont, _ in _containers(items, None, []):
+        for it in cont:
+            if it[0] == "kv" and it[2] == "" and rng.random() < p:
+                it[2] = rng.choice(["$" + EMPTY_NAME, "${" + EMPTY_NAME + "}", "${ZcvNil}", "$" + EMPTY_NAME + "$ZCVNIL"])
+                n += 1
+    if n:
+        items.insert(0, ["define", EMPTY_NAME, ""])
+    return n
+
+
+def empty_given(elab, items):
+    """the kinds of keys the item tree gives WITH the empty value (literally or through an empty definition), for the
+    evidence: 'single+default', 'single', 'multi+default', 'multi', 'wild+default', 'wild'"""
+    out = []
+    nil = {"$" + EMPTY_NAME, "${" + EMPTY_NAME + "}", "${ZcvNil}", "$" + EMPTY_NAME + "$ZCVNIL"}
+    for cont, tyname in _containers(items, None, []):
+        children, kt = _children_of(elab, tyname)
+        if children is None:
+            continue
+        for it in cont:
+            if it[0] != "kv" or not (it[2] == "" or it[2] in nil):
+                continue
+            hit = None
+            for key, info in children:
+                if info[0] == "key" and info[1] == _norm(kt, it[1]):
+                    hit = info
+                    break
+                if info[0] == "key" and info[1] == "+" and hit is None:
+                    hit = info
+            if hit is None:
+                continue
+            kind = "wild" if hit[1] == "+" else "multi" if hit[3] else "single"
+            out.append(kind + ("+default" if (isinstance(hit[6], list) and len(hit[6]) > 1) else ""))
+    return out
 
 
 def claiming_child(elab, children, ty, name):
